@@ -141,6 +141,90 @@ func one(disk bool, dir string) (string, map[string]interface{}) {
 		map[string]interface{}{"disk": disk, "stored": nStore, "queries": nQ}
 }
 
+
+// lapse: continuation pages across the expiry of the continuation id's own message.  K stores are
+// filled; page 1 of a query is taken from each while everything is live; after one common pause the
+// short-lived messages have expired and page 2 is requested from an id of page 1.
+type lapseStore struct {
+	st       storage.Storage
+	stored   []string
+	ssid     message.Ssid
+	limit    int
+	q1       []string
+	page1    message.Frame
+	shortIDs int
+}
+
+func lapse(k int) []string {
+	r := cfg.Rng
+	now0 := time.Now().Unix()
+	var ls []*lapseStore
+	for i := 0; i < k; i++ {
+		s := storage.NewInMemory(nil)
+		if err := s.Configure(nil); err != nil {
+			panic(err)
+		}
+		l := &lapseStore{st: s, ssid: message.Ssid{5, 9}, limit: 1 + r.Intn(3)}
+		n := 4 + r.Intn(8)
+		for j := 0; j < n; j++ {
+			ssid := message.Ssid{5, 9}
+			if r.Intn(4) == 0 {
+				ssid = append(ssid, 11)
+			}
+			m := message.New(ssid, []byte("ch"), payload(vlib.Pick(r, 1, 5, 40)))
+			age := int64(r.Intn(9))
+			m.ID.SetTime(now0 - age)
+			if r.Intn(2) == 0 {
+				m.TTL = uint32(age + 2) // expires at now0+2: live for page 1, gone for page 2
+				l.shortIDs++
+			} else {
+				m.TTL = 3600
+			}
+			if err := s.Store(m); err != nil {
+				panic(err)
+			}
+			l.stored = append(l.stored, msgTerm(*m))
+		}
+		res, err := s.Query(l.ssid, time.Unix(0, 0), time.Unix(0, 0), nil, l.limit)
+		if err != nil {
+			panic(err)
+		}
+		l.page1 = res
+		l.q1 = append(l.q1, vlib.App("Q", ssidTerm(l.ssid), vlib.Z(0), vlib.Z(0), vlib.Bytes(nil), vlib.N(uint64(l.limit)), frameTerm(res)))
+		ls = append(ls, l)
+	}
+	now1 := time.Now().Unix()
+	if now1 > now0+1 {
+		panic("lapse: phase 1 took too long")
+	}
+	for time.Now().Unix() < now0+3 {
+		time.Sleep(100 * time.Millisecond)
+	}
+	time.Sleep(150 * time.Millisecond)
+	now2 := time.Now().Unix()
+	var out []string
+	for _, l := range ls {
+		var q2 []string
+		if len(l.page1) > 0 {
+			// Frame.Limit sorted the page by time ascending: its first message is the oldest one = the last in key order
+			for _, start := range []message.ID{l.page1[0].ID, l.page1[len(l.page1)-1].ID} {
+				for _, lim := range []int{l.limit, 100} {
+					res, err := l.st.Query(l.ssid, time.Unix(0, 0), time.Unix(0, 0), start, lim)
+					if err != nil {
+						panic(err)
+					}
+					q2 = append(q2, vlib.App("Q", ssidTerm(l.ssid), vlib.Z(0), vlib.Z(0), vlib.Bytes(start), vlib.N(uint64(lim)), frameTerm(res)))
+				}
+			}
+		}
+		res, _ := l.st.Query(l.ssid, time.Unix(0, 0), time.Unix(0, 0), nil, 100)
+		q2 = append(q2, vlib.App("Q", ssidTerm(l.ssid), vlib.Z(0), vlib.Z(0), vlib.Bytes(nil), vlib.N(100), frameTerm(res)))
+		out = append(out, vlib.App("CLapse", vlib.Z(now0), vlib.Z(now2), vlib.N(2592000), vlib.List(l.stored), vlib.List(l.q1), vlib.List(q2)))
+		l.st.Close()
+	}
+	return out
+}
+
 func main() {
 	cfg = vlib.ParseFlags()
 	sh := vlib.NewShards(cfg.Out, "C06", "From Emitter Require Import Lib.Base Model.MsgCodec Model.Store Check.C06.", "case", "check", 12)
@@ -157,5 +241,8 @@ func main() {
 		}
 		sh.Add(t, h, cl, true)
 	}
-	sh.Finish("stores of 5-30 messages over contracts {5,9,6} x levels {9,5,11,255,0x1ff,0xffffffff} (5/9 and 9/5 collide in the 32-bit key prefix; ids ending in 0xff) depth 1-3, ages 0..5000 s with many per second, ttl short / long / retained / already expired, payloads up to 30000 bytes (reply-size cap); 6-16 queries each: filters with wildcards, shorter and longer than stored channels, windows, limits 0..100000, continuation from ids of the previous answer or any stored id; in-memory provider and (every 4th) the on-disk provider; non-trivial: all")
+	for _, t := range lapse(8 * cfg.Mult) {
+		sh.Add(t, map[string]interface{}{"op": "continuation across expiry"}, "lapse", true)
+	}
+	sh.Finish("stores of 5-30 messages over contracts {5,9,6} x levels {9,5,11,255,0x1ff,0xffffffff} (5/9 and 9/5 collide in the 32-bit key prefix; ids ending in 0xff) depth 1-3, ages 0..5000 s with many per second, ttl short / long / retained / already expired, payloads up to 30000 bytes (reply-size cap); 6-16 queries each: filters with wildcards, shorter and longer than stored channels, windows, limits 0..100000, continuation from ids of the previous answer or any stored id; in-memory provider and (every 4th) the on-disk provider; lapse: stores whose short-lived messages expire between page 1 and the continuation page (real 3 s pause), continuation from the first / last id of page 1; non-trivial: all")
 }
